@@ -6,7 +6,7 @@ LoB == -3   HiB == 4
 VARIABLES a, b, k
 Init == a \in LoB..HiB /\ b \in LoB..HiB /\ a <= b /\ k \in 1..KMax
 Next == UNCHANGED <<a, b, k>>
-PartitionLemma == IsPartition(Ranges(a, b, k), a, b) /\ Len(Ranges(a, b, k)) = Parts(a, b, k)
+PartitionLemma == IsTiling(Ranges(a, b, k), a, b) /\ IsPartition(Ranges(a, b, k), a, b) /\ Len(Ranges(a, b, k)) = Parts(a, b, k)
 BalancedLemma  == \A i, j \in 1..Len(Ranges(a, b, k)) :
                      LET w(x) == Ranges(a, b, k)[x][2] - Ranges(a, b, k)[x][1] IN w(i) - w(j) \in {-1, 0, 1}
 
